@@ -6,16 +6,16 @@ CONFIG = {
     "lean_props": "J5V/Props/C14.lean",
     "extract": ["maprange"],
     "streams": [
-        stream("det", {"quick": 96, "thorough": 960, "search": 96}, {"quick": 16, "thorough": 16, "search": 16},
+        stream("det", {"quick": 96, "thorough": 320, "search": 96}, {"quick": 16, "thorough": 16, "search": 16},
                GEN_RULE + " Op `det`: bundle of 1-4 packages with 1-4 files each and a variant (permutation of the package listing, permutation "
                "of each package's file listing through a shuffling file source, a CompilePackage call sequence possibly with repeats, one reused "
                "PackageSet or a fresh one per call). The result line is the skeleton of every package under that variant. Go-side oracle: "
                "proto.Marshal(Deterministic) bytes of every FileDescriptorProto and protoprint.PrintFile text are compared between the "
-               "identity variant, the op's variant, 3 (thorough 10) further random variants in the same process (Go randomises each map "
-               "range) and 2 (thorough 6) fresh processes (different map hash seed); the identity listing is compiled once more in the same "
+               "identity variant, the op's variant, 3 (thorough 5) further random variants in the same process (Go randomises each map "
+               "range) and 2 (thorough 3) fresh processes (different map hash seed); the identity listing is compiled once more in the same "
                "process. Bundles may hold nested package directories (foo.v1 and foo.v1.types.v2, importing each other's types) and files with "
                "two un-aliased imports that imply the same short name (the later statement owns it, the named type exists in both packages): "
-               "those are compiled 12 more times in process and in 20 fresh processes. Printer sub-oracle: per package one descriptor without "
+               "those are compiled 6 more times in process and in 20 fresh processes. Printer sub-oracle: per package one descriptor without "
                "source info whose messages carry every message-level option known to the process (among them options of different files with "
                "the same declaration index and the same short name) is printed 7 times in process and once per fresh process; all texts are "
                "equal. Non-trivial = bundle in which at least one package compiled; distinct by skeleton.", gomemlimit="3GiB"),
